@@ -18,9 +18,14 @@ BIG = wasi.BIG
 
 def rand_vec(rng):
     n = rng.choice([0, 1, 2, 3])
+    big = rng.random() < 0.25
+    if big:
+        n = rng.choice([16, 17, 33, 60])              # many entries (short ones), or few with a very long one
     out = []
-    for _ in range(n):
-        ln = rng.choice([0, 1, 2, 7, 255])
+    for k in range(n):
+        ln = rng.choice([0, 1, 2, 7, 255]) if not big else rng.choice([0, 1, 3, 20])
+        if not big and k == 0 and rng.random() < 0.15:
+            ln = rng.choice([4095, 4096, 4097])
         out.append(bytes(rng.choice([rng.randrange(1, 128), rng.randrange(128, 256), 0x3D, 0x20]) for _ in range(ln)))
     return out
 
